@@ -206,6 +206,18 @@ func (d *Disk) apply(f *Fault, accessed string) error {
 	case "dangling":
 		os.RemoveAll(t)
 		os.Symlink("no-such-target.jst", t)
+	case "grow":
+		// somebody appends to the file (a log-like include, an editor saving): it is longer at
+		// read time than the stat said. Blank lines and a comment: the text stays what it was
+		if fh, err := os.OpenFile(t, os.O_APPEND|os.O_WRONLY, 0o644); err == nil {
+			n := f.Len
+			if n <= 0 {
+				n = 1
+			}
+			fh.WriteString(strings.Repeat("\n", n) + "# appended\n")
+			fh.Close()
+			os.Chtimes(t, fixedMtime, fixedMtime)
+		}
 	case "torn":
 		if b, err := os.ReadFile(t); err == nil {
 			o := f.Off
